@@ -349,6 +349,7 @@ type wireAttr struct {
 	body     []byte // everything after type and length
 	reserved bool   // non-zero reserved octets where the library drops them
 	padding  bool   // non-zero padding octets
+	wide     bool   // zero padding of a whole word or more
 }
 
 func genWirePacket(r *Rng) (w []byte, class string) {
@@ -376,6 +377,12 @@ func genWirePacket(r *Rng) (w []byte, class string) {
 			}
 			v := r.Bytes(n)
 			pad := (4 - (4+n)%4) % 4
+			if r.Chance(1, 5) {
+				// a field wider than the value needs (the fixed 16-octet RES field of the RFC 4187 10.8 figure, a network name
+				// field one or more words longer): well-formed, the actual-length field says where the value ends
+				pad += 4 * r.Range(1, 3)
+				a.wide = true
+			}
 			p := make([]byte, pad)
 			if pad > 0 && r.Chance(1, 6) {
 				p[0] = byte(r.Range(1, 255))
